@@ -104,7 +104,7 @@ CATALOG = {
         "level": "Decides for every path of the factory: globals only under the executor lock; replace iff broken or shutdown or not reuse (8 rows), "
                  "'auto' = equality of requested and stored kwargs; no constructor argument can be silently dropped (public function -> factory -> "
                  "kwargs -> constructor -> base constructor, by name); shutdown(wait=True) -> reset -> returned recursive construction; ids grow by "
-                 "one under the lock; reuse resizes to the requested size; the call's polling loops can end.",
+                 "one under the lock; reuse resizes to the requested size; the call's polling loops can end, and every entry of the pending table the resize waits on leaves it (cancel, feeder errors, results).",
         "note": "Partial: outcomes of thread races as values are not decided; the health of the returned executor relies on C01/C02 clauses.",
     },
     "C10": {
@@ -113,7 +113,7 @@ CATALOG = {
                      "sentinel posts, symbolic sentinel count, effect query (no kill), abstract evaluation of the three polling guards",
         "level": "Decides that submit and _resize are serialised by one lock object, that job completion is awaited before sentinels, that the new "
                  "size is written under the management lock before exactly alive-target sentinels are posted under it, that nothing is killed, "
-                 "that the pool is topped up and the manager woken afterwards, and that every wait loop terminates in the failure post-state.",
+                 "that the pool is topped up and the manager woken afterwards, and that every wait loop terminates in the failure post-state; every entry of the pending table the resize waits on leaves it (cancel, every feeder error class, results).",
         "note": "Partial: which pids survive is a runtime value and is not decided.",
     },
     "C11": {
